@@ -359,6 +359,7 @@ func (x *Exec) Step(e Ev) {
 		}
 		x.emit(Ev{"op": "fit", "h": e.I("h"), "o": e.S("o"), "k": e.I("k"), "res": res})
 	case "copyspan":
+		x.V = VirtP{}
 		x.copySpan(e)
 	}
 }
